@@ -687,6 +687,7 @@ func (u *Unit) convert(st *State, fr *Frame, x *ssa.Convert) Term {
 // ---------------- interfaces ----------------
 
 func (u *Unit) boxFn(t types.Type) (string, Sort, int) {
+	u.noteType(t)
 	so := u.P.TW.SortOf(t)
 	id := u.P.TW.TypeID(t)
 	return fmt.Sprintf("box_%d", id), so, id
@@ -721,22 +722,50 @@ func (u *Unit) implFn(it types.Type) string {
 	return fn
 }
 
-// implFacts asserts impl_I(tag) for every concrete type known so far.
+// implFacts: impl_I(tag) for every (interface, concrete type) pair this unit has
+// mentioned, in whichever order they were mentioned (per unit, so that what a unit can
+// prove does not depend on which other units ran before it).
 func (u *Unit) implFacts(it types.Type) {
-	fn := u.implFn(it)
-	iface := it.Underlying().(*types.Interface)
-	all := u.P.TW.AllTypes()
-	for id := 1; id < len(all); id++ {
-		ct := all[id]
-		if _, isI := ct.Underlying().(*types.Interface); isI {
-			continue
-		}
-		f := App(fn, SBool, IntLit(int64(id)))
-		if types.Implements(ct, iface) {
-			u.Axiom(f)
-		} else {
-			u.Axiom(Not(f))
-		}
+	k := typeKey(it)
+	if u.ifacesSeen == nil {
+		u.ifacesSeen = map[string]types.Type{}
+	}
+	if _, ok := u.ifacesSeen[k]; ok {
+		return
+	}
+	u.ifacesSeen[k] = it
+	for _, ct := range u.typesSeen {
+		u.implFact(it, ct)
+	}
+}
+
+func (u *Unit) implFact(it, ct types.Type) {
+	if _, isI := ct.Underlying().(*types.Interface); isI {
+		return
+	}
+	iface, ok := it.Underlying().(*types.Interface)
+	if !ok {
+		return
+	}
+	f := App(u.implFn(it), SBool, IntLit(int64(u.P.TW.TypeID(ct))))
+	if types.Implements(ct, iface) {
+		u.Axiom(f)
+	} else {
+		u.Axiom(Not(f))
+	}
+}
+
+func (u *Unit) noteType(t types.Type) {
+	k := typeKey(t)
+	if u.typesSeen == nil {
+		u.typesSeen = map[string]types.Type{}
+	}
+	if _, ok := u.typesSeen[k]; ok {
+		return
+	}
+	u.typesSeen[k] = t
+	for _, it := range u.ifacesSeen {
+		u.implFact(it, t)
 	}
 }
 
